@@ -963,9 +963,11 @@ impl Session {
         }
 
         // Increment packet counter
+        // Packet 0 is the authentication preamble: session packets are numbered from 1
         let pkt = self
             .pkt_counter
-            .fetch_add(1, std::sync::atomic::Ordering::SeqCst);
+            .fetch_add(1, std::sync::atomic::Ordering::SeqCst)
+            .wrapping_add(1);
         let padding_factory = {
             let padding_guard = self.padding.read().await;
             padding_guard.clone()
